@@ -510,6 +510,9 @@ func (fc *FnCtx) evalCall(x *ECall, env *Env) Val {
 		}
 		hn := "G." + tn + "." + lit.Val
 		return intVal(fmt.Sprintf("(select %s %s)", fc.getHeapTerm(h, hn, arrOf(SInt)), ref))
+	case "sends":
+		// sends(): the number of channel sends executed on the path leading here
+		return intVal(fc.getHeapTerm(h, "$sends", SInt))
 	case "called":
 		// called("F"): a call to F was executed on the path leading here
 		lit, ok := x.Args[0].(*ELit)
